@@ -84,11 +84,11 @@ def sizes_2d(L, tier):
         hs = sorted(set(list(range(2, 6)) + [x for x in range(L - 2, L + 4) if 2 <= x <= 24]))
         ws = [2, 3]
     else:
-        if L <= 12:
-            return [(h, w) for h in range(2, 15) for w in range(2, 15)] + ([(32, 32), (33, 20), (20, 33), (48, 40)] if L <= 8 else [])
+        if L <= 8:
+            return [(h, w) for h in range(2, 15) for w in range(2, 15)] + ([(32, 32), (33, 20), (20, 33)] if L in (4, 6) else [])
         if L <= 20:
             hs = list(range(2, 2 * L + 5))
-            ws = [2, 3, 5]
+            ws = [2, 3]
         else:
             hs = sorted(set(list(range(2, 6)) + list(range(L - 2, L + 4)) + list(range(2 * L - 1, 2 * L + 5))))
             ws = [2, 3]
